@@ -30,13 +30,17 @@ from verifkit.util import scratch, write_file
 LEVEL = "model_checking"
 
 KINDS = ("gen", "agen", "coro")
-ALL_OPS = ["next", "send7", "send0", "sendE", "tE1", "tSI", "tSA", "tGE", "close"]
+ALL_OPS = ["next", "send7", "send0", "sendE", "tE1", "tEB", "tSI", "tSA", "tGE", "close"]
 SEND = {"next": None, "send7": 7, "send0": 0, "sendE": ""}       # send0 / sendE: falsy but not None
 
 
 # =========================================================================== concretiser
 class E1(Exception):
     pass
+
+
+class EB(BaseException):
+    """a BaseException that is no Exception (stands for KeyboardInterrupt, SystemExit, CancelledError)"""
 
 
 class _Susp:
@@ -142,7 +146,7 @@ def _namespace():
     if _NS is None:
         import typing
         from collections import abc
-        _NS = {"E1": E1, "_Susp": _Susp, "abc": abc, "__name__": __name__}
+        _NS = {"EB": EB, "E1": E1, "_Susp": _Susp, "abc": abc, "__name__": __name__}
         for n in ("Generator", "Iterator", "Iterable", "AsyncGenerator", "AsyncIterator", "AsyncIterable",
                   "Coroutine", "Any", "Union"):
             _NS[n] = getattr(typing, n)
@@ -183,7 +187,7 @@ def _exc_obs(e):
     return "raise|%s|%s" % (type(e).__name__, "" if a == () else tok(a[0]) if len(a) == 1 else "?" + repr(a)[:80])
 
 
-_THROW = {"tE1": lambda: E1("t"), "tSI": lambda: StopIteration(), "tSA": lambda: StopAsyncIteration(),
+_THROW = {"tEB": lambda: EB("t"), "tE1": lambda: E1("t"), "tSI": lambda: StopIteration(), "tSA": lambda: StopAsyncIteration(),
           "tGE": lambda: GeneratorExit()}
 
 _unraisable = []
@@ -441,11 +445,15 @@ G_TRYQ = dict(pre=[], premax=0, blk=["RX", "YX"], blkmax=2, hc=["", "E1", "Gener
 # bodies that observe what they receive (yield it back, log it) under None / truthy / falsy sends
 G_SEND = dict(pre=["RX", "YX", "LX", "Y1"], premax=3, blkmax=0,
               ops=["next", "send7", "send0", "sendE", "tE1"], maxops=3, postmax=1)
+# a thrown BaseException that is no Exception, into bodies with finally / except BaseException / except Exception
+G_BASE = dict(pre=[], premax=0, blk=["RX"], blkmax=2, hc=["", "BaseException", "Exception"],
+              hblk=["Y2", "LB", "R1", "RR"], hblkmax=1, fin=["LF"], finmax=1, post=["Y1"], postlen=1,
+              ops=["next", "tEB", "tE1", "close"], maxops=3, postmax=1)
 G_MUT = dict(pre=[], premax=0, blk=["RX"], blkmax=1, hc=["", "E1", "GeneratorExit"],
              hblk=["Y2", "R1", "XE"], hblkmax=1, fin=["LF"], finmax=1, post=["Y1", "XE", "R1"], postlen=1,
              ops=["next", "send7", "tE1", "tSA", "tGE", "close"], maxops=3, postmax=1)
 
-MUTANTS = {"agen": ["merge_else", "send_after_throw", "no_aclose", "falsy_is_none"], "gen": ["lose_return"],
+MUTANTS = {"agen": ["merge_else", "send_after_throw", "no_aclose", "falsy_is_none", "narrow_base"], "gen": ["lose_return"],
            "coro": ["no_check"]}
 
 TRACE_CFG = """SPECIFICATION TSpec
@@ -698,7 +706,8 @@ def _design_jobs(d, tier):
         jobs.append((("exhibit", kind, wrap_of(kind)),
                      make_cfg(d, f"ex_{kind}", kind, wrap_of(kind), g, keep=True, emit=False, invs=["LockStep"]), {}))
         for m in MUTANTS[kind]:
-            gm = dict(G_SEND, ops=kind_ops(kind, G_SEND["ops"])) if m == "falsy_is_none" else g
+            gm = {"falsy_is_none": G_SEND, "narrow_base": G_BASE}.get(m)
+            gm = dict(gm, ops=kind_ops(kind, gm["ops"])) if gm else g
             jobs.append((("mutant", kind, m),
                          make_cfg(d, f"mut_{kind}_{m}", kind, m, gm, keep=True, emit=False, invs=["LockStepModF7"]), {}))
     g = dict(G_TRYQ, ops=G_TRYQ["ops"] + ["send0", "tSA"])
@@ -708,7 +717,7 @@ def _design_jobs(d, tier):
         if tier != "quick":
             deep = dict(G_TRY, maxops=6, postmax=2)
             if kind == "agen":
-                deep["ops"] = deep["ops"] + ["send0"]
+                deep["ops"] = deep["ops"] + ["send0", "tEB"]
         elif kind == "agen":          # the hand-written loop gets the larger scope in the quick tier
             deep = dict(G_TRY, maxops=4)
         else:
@@ -757,11 +766,12 @@ def _design_judge(rep, jobs, results):
 
 G_STRAIGHT4 = dict(G_STRAIGHT, pre=G_STRAIGHT["pre"] + ["XA", "XG"], maxops=4)
 G_TRY2 = dict(G_TRYQ, hblk=["Y2", "LB", "RN", "RR", "XE", "XS"], hblkmax=2, post=["Y1", "XE"],
-              ops=["next", "send7", "send0", "tE1", "tGE", "close"])
+              ops=["next", "send7", "send0", "tE1", "tEB", "tGE", "close"])
+G_BASE4 = dict(G_BASE, blk=["RX", "YX"], hblk=G_BASE["hblk"] + ["XE"], ops=G_BASE["ops"] + ["send7", "tGE"], maxops=4)
 G_SEND4 = dict(G_SEND, pre=G_SEND["pre"] + ["R1"], ops=G_SEND["ops"] + ["close"], maxops=4)
 TABLES = {
-    "quick": [("straight", G_STRAIGHT), ("try", G_TRYQ), ("send", G_SEND)],
-    "thorough": [("straight", G_STRAIGHT4), ("try", G_TRY), ("try2", G_TRY2), ("send", G_SEND4)],
+    "quick": [("straight", G_STRAIGHT), ("try", G_TRYQ), ("send", G_SEND), ("base", G_BASE)],
+    "thorough": [("straight", G_STRAIGHT4), ("try", G_TRY), ("try2", G_TRY2), ("send", G_SEND4), ("base", G_BASE4)],
 }
 
 
